@@ -3,6 +3,10 @@
 # (an invariant or property violated).  A defect variant that TLC accepts means the property it was
 # planted against is vacuous.  Exit 0 when all are refuted, 1 otherwise.
 cd "$(dirname "$0")/../spec" || exit 2
+# TLC unpacks its module jars into java.io.tmpdir on every run: keep that out of /tmp
+JT=/verif/work/refute_jtmp_$$; mkdir -p $JT
+export JAVA_TOOL_OPTIONS="-Djava.io.tmpdir=$JT"
+trap 'rm -rf $JT' EXIT
 bad=0
 for cfg in MC_*_bug_*.cfg; do
   mod=${cfg#MC_}; mod=${mod%%_bug_*}
